@@ -101,6 +101,215 @@ example :
                   { profFiltering := false, devFiltering := false } } := by
   rw [← blocked_iff_rejected]; decide
 
+/-! ## IPv6 zones: "all client addresses" includes `fe80::1%eth0` -/
+
+/-- **zone_irrelevant.** Read literally — the remote address reaches the access package with whatever
+IPv6 zone the transport reported, the package removes the zone and then asks `netip.Prefix.Contains`,
+which refuses every zoned address — the code's decision is the decision over the bits of the address
+alone: a zone never lets a client out of a blocked subnet or out of an allowed one.  (All the theorems
+of this file speak about `accessReason`, the decision over the bits.) -/
+theorem zone_irrelevant (g : Global) (r : Req) : accessReasonZ g r = accessReason g r := by
+  have hn : ∀ (l : List Prefix), matchNetsZ l r.zaddr.withoutZone = matchNets l r.addr := by
+    intro l
+    simp [matchNetsZ, matchNets, Prefix.containsZ, ZAddr.withoutZone, Req.zaddr]
+  unfold accessReasonZ accessReason Global.isBlockedIPZ Global.isBlockedIP ProfAcc.isBlockedZ ProfAcc.isBlocked
+    ProfAcc.isBlockedByNetsZ ProfAcc.isBlockedByNets
+  simp only [hn]
+
+/-- … in particular a zoned client inside a blocked subnet is rejected, by the declarative reading. -/
+theorem zoned_client_rejected_iff (g : Global) (r : Req) :
+    (accessReasonZ g r != .pass) = true ↔ Rejected g r := by
+  rw [zone_irrelevant]; exact blocked_iff_rejected g r
+
+/-- Non-vacuity: `fe80::1%eth0` against a globally blocked `fe80::/10`, and against the blocked subnet
+of its profile. -/
+example :
+    accessReasonZ { nets := [⟨false, 0xfe800000000000000000000000000000, 10⟩], eng := fun _ _ => ⟨false, none⟩ }
+      { addr := ⟨false, 0xfe800000000000000000000000000001⟩, zoned := true, port := 4000, qname := "ok.test.", qtype := 1,
+        asn := none, ecsBad := false, dev := .none } = .globalIP ∧
+    accessReasonZ { nets := [], eng := fun _ _ => ⟨false, none⟩ }
+      { addr := ⟨false, 0xfe800000000000000000000000000001⟩, zoned := true, port := 4000, qname := "ok.test.", qtype := 1,
+        asn := none, ecsBad := false,
+        dev := .ok (some { allowedNets := [], blockedNets := [⟨false, 0xfe800000000000000000000000000000, 10⟩],
+                           allowedASN := [], blockedASN := [], eng := fun _ _ => ⟨false, none⟩ }) {} } = .profile := by
+  decide
+
+/-- **pre_fix_zoned_client_counterexample.** Before the repair (`Global.IsBlockedIP` and
+`DefaultProfile.IsBlocked` handed the zoned address to `netip.Prefix.Contains`) the statement failed for
+link-local clients: `fe80::1%eth0` is in the globally blocked `fe80::/10` (`Rejected`), yet the request
+passed; and a client that its profile allows by subnet (`fe80::/10` allowed, its ASN blocked) — no rule
+rejects it — was dropped. -/
+theorem pre_fix_zoned_client_counterexample :
+    ¬ (∀ (g : Global) (r : Req), Rejected g r ↔ (accessReasonZPreFix g r != .pass) = true) := by
+  intro h
+  have := (h { nets := [⟨false, 0xfe800000000000000000000000000000, 10⟩], eng := fun _ _ => ⟨false, none⟩ }
+      { addr := ⟨false, 0xfe800000000000000000000000000001⟩, zoned := true, port := 4000, qname := "ok.test.", qtype := 1,
+        asn := none, ecsBad := false, dev := .none }).1
+    (by rw [← blocked_iff_rejected]; decide)
+  revert this
+  decide
+
+example :
+    accessReasonZPreFix { nets := [], eng := fun _ _ => ⟨false, none⟩ }
+      { addr := ⟨false, 0xfe800000000000000000000000000001⟩, zoned := true, port := 4000, qname := "ok.test.", qtype := 1,
+        asn := some 42, ecsBad := false,
+        dev := .ok (some { allowedNets := [⟨false, 0xfe800000000000000000000000000000, 10⟩], blockedNets := [],
+                           allowedASN := [], blockedASN := [42], eng := fun _ _ => ⟨false, none⟩ }) {} } = .profile ∧
+    accessReasonZ { nets := [], eng := fun _ _ => ⟨false, none⟩ }
+      { addr := ⟨false, 0xfe800000000000000000000000000001⟩, zoned := true, port := 4000, qname := "ok.test.", qtype := 1,
+        asn := some 42, ecsBad := false,
+        dev := .ok (some { allowedNets := [⟨false, 0xfe800000000000000000000000000000, 10⟩], blockedNets := [],
+                           allowedASN := [], blockedASN := [42], eng := fun _ _ => ⟨false, none⟩ }) {} } = .pass := by
+  decide
+
+/-! ## The profile's settings, from the backend's message to the decision — and across a restart -/
+
+/-- The client address lies in the range a `CidrRange` message denotes: 4 address bytes for an IPv4
+client, 16 for an IPv6 one, a prefix length within the width of the family, and the leading bits of the
+two addresses equal.  (Written over the message itself: no `netip`, no conversion.) -/
+def CidrHas (c : Cidr) (a : Addr) : Prop :=
+  ((c.nbytes = 4 ∧ a.is4 = true) ∨ (c.nbytes = 16 ∧ a.is4 = false)) ∧ c.bits ≤ width a.is4 ∧
+    ∀ i, width a.is4 - c.bits ≤ i → a.val.testBit i = c.val.testBit i
+
+theorem converted_nets_iff (l : List Cidr) (a : Addr) :
+    matchNets (l.filterMap cidrToPrefix) a = true ↔ ∃ c ∈ l, CidrHas c a := by
+  simp only [matchNets, List.any_eq_true, prefix_contains_bits, List.mem_filterMap]
+  constructor
+  · rintro ⟨n, ⟨c, hc, hcn⟩, h4, hb⟩
+    refine ⟨c, hc, ?_⟩
+    unfold cidrToPrefix at hcn
+    split at hcn
+    · split at hcn
+      · cases hcn; simp_all [CidrHas, width]
+      · cases hcn
+    · split at hcn
+      · split at hcn
+        · cases hcn
+          have : a.is4 = false := by simpa using h4.symm
+          simp_all [CidrHas, width]
+        · cases hcn
+      · cases hcn
+  · rintro ⟨c, hc, hfam, hbits, hb⟩
+    rcases hfam with ⟨h4, ha⟩ | ⟨h16, ha⟩
+    · refine ⟨⟨true, c.val, c.bits⟩, ⟨c, hc, ?_⟩, by simp [ha], by simpa [ha] using hb⟩
+      have : c.bits ≤ 32 := by simpa [ha, width] using hbits
+      simp [cidrToPrefix, h4, this]
+    · refine ⟨⟨false, c.val, c.bits⟩, ⟨c, hc, ?_⟩, by simp [ha], by simpa [ha] using hb⟩
+      have : c.bits ≤ 128 := by simpa [ha, width] using hbits
+      simp [cidrToPrefix, h16, this]
+
+/-- **backend_access_blocked_iff.** From the message of the backend to the verdict, through
+`AccessSettings.toInternal`, `cidrRangeToInternal`, `NewDefaultProfile` and `DefaultProfile.IsBlocked`
+(zone removal included): a profile rejects a request exactly when it has access settings, they are
+*enabled*, and either a blocked ASN or CIDR range covers the client while no allowed ASN or range does,
+or a blocked-name rule matches.  Disabled or absent settings reject nothing; a range whose address is
+neither 4 nor 16 bytes long or whose prefix length exceeds the family's covers nobody. -/
+theorem backend_access_blocked_iff (x : Option AccessSettings) (qname : String) (qt : Nat) (z : ZAddr)
+    (l : Option Nat) :
+    confBlocked (accessFromBackend x) qname qt z l = true ↔
+      ∃ s, x = some s ∧ s.enabled = true ∧
+        ((¬ (AsnIn s.allowASN l ∨ ∃ c ∈ s.allowCidr, CidrHas c z.addr) ∧
+            (AsnIn s.blockASN l ∨ ∃ c ∈ s.blockCidr, CidrHas c z.addr)) ∨
+          engBlocked (ruleEngine s.rules (normQueryDomain qname) qt) = true) := by
+  have hn : ∀ (l : List Prefix), matchNetsZ l z.withoutZone = matchNets l z.addr := by
+    intro l
+    simp [matchNetsZ, matchNets, Prefix.containsZ, ZAddr.withoutZone]
+  have asns : ∀ (l : List Nat) (o : Option Nat), matchASNs l o = true ↔ AsnIn l o := by
+    intro l o
+    cases o <;> simp [matchASNs, AsnIn]
+  cases x with
+  | none => simp [accessFromBackend, confBlocked]
+  | some s =>
+    by_cases he : s.enabled = true
+    · simp only [accessFromBackend, he, confBlocked, ProfAcc.isBlockedZ, ProfAcc.isBlockedByNetsZ, hn,
+        ProfConf.acc, ProfAcc.isBlockedByHostsEng, Bool.not_true, Bool.false_eq_true, if_false]
+      simp only [← converted_nets_iff, ← asns]
+      by_cases a1 : matchASNs s.allowASN l = true <;>
+        by_cases a2 : matchNets (s.allowCidr.filterMap cidrToPrefix) z.addr = true <;>
+        by_cases a3 : matchASNs s.blockASN l = true <;>
+        by_cases a4 : matchNets (s.blockCidr.filterMap cidrToPrefix) z.addr = true <;>
+        by_cases a5 : engBlocked (ruleEngine s.rules (normQueryDomain qname) qt) = true <;>
+        simp [a1, a2, a3, a4, a5, he]
+    · have he' : s.enabled = false := by simpa using he
+      simp [accessFromBackend, he', confBlocked]
+
+/-- Non-vacuity: enabled settings with a blocked 16-byte range reject the (zoned) IPv6 client; the same
+settings disabled do not; a 4-byte range with prefix length 33 covers nobody. -/
+example :
+    confBlocked (accessFromBackend (some { enabled := true, blockCidr := [⟨16, 0xfe800000000000000000000000000000, 10⟩] }))
+      "ok.test." 1 ⟨⟨false, 0xfe800000000000000000000000000001⟩, true⟩ none = true ∧
+    confBlocked (accessFromBackend (some { enabled := false, blockCidr := [⟨16, 0xfe800000000000000000000000000000, 10⟩] }))
+      "ok.test." 1 ⟨⟨false, 0xfe800000000000000000000000000001⟩, true⟩ none = false ∧
+    confBlocked (accessFromBackend (some { enabled := true, blockCidr := [⟨4, 0x0A010203, 33⟩, ⟨5, 0x0A010203, 8⟩] }))
+      "ok.test." 1 ⟨⟨true, 0x0A010203⟩, false⟩ none = false := by decide
+
+/-- Every prefix of the configuration has a length within its family's width. -/
+def ProfConf.Valid (c : ProfConf) : Prop :=
+  (∀ p ∈ c.allowedNets, p.bits ≤ width p.is4) ∧ (∀ p ∈ c.blockedNets, p.bits ≤ width p.is4)
+
+theorem cidr_roundtrip (l : List Prefix) (h : ∀ p ∈ l, p.bits ≤ width p.is4) :
+    (l.map cidrOfPrefix).filterMap cidrToPrefix = l := by
+  induction l with
+  | nil => rfl
+  | cons p t ih =>
+    have hp := h p (by simp)
+    have ht := ih (fun q hq => h q (by simp [hq]))
+    obtain ⟨is4, val, bits⟩ := p
+    cases is4 <;> simp_all [cidrOfPrefix, cidrToPrefix, width]
+
+/-- What the backend converter produces is valid in this sense … -/
+theorem backend_conf_valid (x : Option AccessSettings) (c : ProfConf) (h : accessFromBackend x = some c) :
+    c.Valid := by
+  have key : ∀ (l : List Cidr), ∀ p ∈ l.filterMap cidrToPrefix, p.bits ≤ width p.is4 := by
+    intro l p hp
+    obtain ⟨c, _, hc⟩ := List.mem_filterMap.mp hp
+    unfold cidrToPrefix at hc
+    split at hc
+    · split at hc
+      · cases hc; simpa [width]
+      · cases hc
+    · split at hc
+      · split at hc
+        · cases hc; simpa [width]
+        · cases hc
+      · cases hc
+  cases x with
+  | none => simp [accessFromBackend] at h
+  | some s =>
+    by_cases he : s.enabled = true
+    · simp only [accessFromBackend, he, Bool.not_true, Bool.false_eq_true, if_false, Option.some.injEq] at h
+      subst h
+      exact ⟨key _, key _⟩
+    · have he' : s.enabled = false := by simpa using he
+      simp [accessFromBackend, he'] at h
+
+/-- **restart_preserves_access.** … and for every valid configuration — in particular every one that came
+from the backend — writing the profile to the cache file (`DefaultProfile.Config`,
+`accessToProtobuf`, `prefixesToProtobuf`) and reading it back after a restart
+(`Access.toInternal`, `cidrRangeToInternal`) gives the same configuration, hence the same engine and
+the same verdict on every request: a restart neither unblocks a rejected client nor rejects another
+one.  "No access settings" (`EmptyProfile`) stays "no access settings". -/
+theorem restart_preserves_access (c : Option ProfConf) (h : ∀ c', c = some c' → c'.Valid) :
+    confOfCache (cacheOfConf c) = c := by
+  cases c with
+  | none => rfl
+  | some c =>
+    obtain ⟨h1, h2⟩ := h c rfl
+    simp [confOfCache, cacheOfConf, cidr_roundtrip _ h1, cidr_roundtrip _ h2]
+
+theorem restart_preserves_backend_access (x : Option AccessSettings) :
+    confOfCache (cacheOfConf (accessFromBackend x)) = accessFromBackend x :=
+  restart_preserves_access _ (fun c' h => backend_conf_valid x c' h)
+
+def exSettings : AccessSettings :=
+  { enabled := true, allowASN := [1], blockASN := [42, 42], allowCidr := [⟨4, 0xC0000201, 32⟩],
+    blockCidr := [⟨4, 0xC0000200, 24⟩, ⟨16, 0xffff0A010200, 120⟩, ⟨4, 1, 40⟩] }
+
+example :
+    confOfCache (cacheOfConf (accessFromBackend (some exSettings))) =
+    some { allowedNets := [⟨true, 0xC0000201, 32⟩], blockedNets := [⟨true, 0xC0000200, 24⟩, ⟨false, 0xffff0A010200, 120⟩],
+           allowedASN := [1], blockedASN := [42, 42] } := by decide
+
 /-! ## Blocked means silent and traceless -/
 
 /-- **blocked_no_trace.** A rejected request makes neither the middleware nor the server do anything
@@ -311,16 +520,16 @@ theorem unblocked_proceeds (g : Global) (r : Req) (hb : blocked g r = false) (hp
 example :
     (wrap { nets := [⟨true, 0x0A010200, 24⟩], eng := fun _ _ => ⟨false, none⟩ }
       { addr := ⟨true, 0x0A010309⟩, port := 4000, qname := "Ok.test.", qtype := 1, asn := none, ecsBad := false,
-        dev := .authFail }).info = some ⟨"ok.test", 1, 1, ⟨true, 0x0A010309⟩, none, false, .authFail⟩ := by decide
+        dev := .authFail }).info = some ⟨"ok.test", 1, 1, ⟨true, 0x0A010309⟩, none, false, .authFail, false⟩ := by decide
 
 /-- **pool_irrelevant.** The request information is taken from a pool and may still hold the data of an
 earlier (possibly rejected) request; after `newRequestInfo` and the assignments in `Wrap` nothing of
 it is left: the result is a function of the current request alone. -/
 theorem pool_irrelevant (pooled : RI) (r : Req) : fillInfo pooled r = reqInfo r := rfl
 
-example : fillInfo ⟨"secret.blocked.test", 16, 3, ⟨false, 7⟩, some 42, true, .ok⟩
+example : fillInfo ⟨"secret.blocked.test", 16, 3, ⟨false, 7⟩, some 42, true, .ok, true⟩
     { addr := ⟨true, 9⟩, port := 5, qname := "a.", qtype := 1, asn := none, ecsBad := false, dev := .none } =
-    ⟨"a", 1, 1, ⟨true, 9⟩, none, false, .none⟩ := by decide
+    ⟨"a", 1, 1, ⟨true, 9⟩, none, false, .none, false⟩ := by decide
 
 /-! ## Name rules over the modelled grammar -/
 
@@ -611,6 +820,15 @@ example : serverWire .doq {} exBlockedG exBlockedR true = [.srvServfail] ∧
 #print axioms prefix_contains_iff
 #print axioms prefix_contains_bits
 #print axioms blocked_iff_rejected
+#print axioms zone_irrelevant
+#print axioms zoned_client_rejected_iff
+#print axioms pre_fix_zoned_client_counterexample
+#print axioms converted_nets_iff
+#print axioms backend_access_blocked_iff
+#print axioms cidr_roundtrip
+#print axioms backend_conf_valid
+#print axioms restart_preserves_access
+#print axioms restart_preserves_backend_access
 #print axioms wire_cases
 #print axioms silent_iff
 #print axioms pool_irrelevant
@@ -647,3 +865,6 @@ end Agd.Access
 #print axioms Agd.Tie.TrC10.blocked_reaches_nothing
 #print axioms Agd.Tie.TrC10.access_checked_first
 #print axioms Agd.Tie.TrC10.unblocked_is_processed
+#print axioms Agd.Tie.TrC10.backend_access_total
+#print axioms Agd.Tie.TrC10.backend_access_enabled_iff
+#print axioms Agd.Tie.TrC10.cache_access_present_iff
